@@ -69,6 +69,7 @@ PROPS = {
  "only the boot catalog's own records read as the boot catalog": ('C07', 'add_fp A; add_eltorito; add_hard_link(boot catalog -> /L.;1); rm_hard_link(/L.;1); add_hard_link(A -> /L.;1): the editing object reads 2048 bytes of boot catalog for /L.;1 (thorough sigma7, D = 5, oracle_live)'),
  'many short components gets its continuation area': ('C08', "add_symlink with rr_path 'c/c/.../c' (32 components): SL record flagged CONTINUE with nothing following, target read back with 31 components (thorough target-shape sweep, k components of length m)"),
  "that reads '.' or '..' is recorded as a name": ('C08', "level 4, 150-character identifier, XA, Rock Ridge 1.12, add_symlink rr_path '../.a/.a/.a': read back as '../.a/.a/./a' (thorough: every arrangement of special components x long identifiers)"),
+ 'refused add_isohybrid leaves no half-made MBR': ('C14', 'add_fp(boot); add_eltorito(load size 4); add_isohybrid(geometry_heads=1000) refused: next write_fp raised PyCdlibInternalError (IsoHybrid not initialized)'),
  'resolve a relocated Rock Ridge directory through its link': ('C01', 'two depth-8 directories with the same Rock Ridge name in different parents: the second is missing from the Rock Ridge view (reloc-collide chain)'),
 }
 log = subprocess.run(['git', '-C', '/repo', 'log', '--reverse', '--format=%h\t%s', '1c3f835..HEAD'], stdout=subprocess.PIPE).stdout.decode().strip().splitlines()
